@@ -979,7 +979,13 @@ def run_case(ck, lib, gm, seed):
   # transmission stage evaluated with actuation enabled (the flag "disables all standard computations related to
   # actuator forces", which in this tree includes actuator_velocity)
   m.opt.disableflags = base_flags & ~E.mjDSBL_ACTUATION
-  lib.mj_forward(m, d)
+  try:
+    lib.mj_forward(m, d)
+  except Exception as e:
+    if 'rank-deficient' in str(e) or 'diagonal element too small' in str(e):
+      ck.discard('singular-inertia')       # degenerate tree (e.g. parallel hinges on one anchor), not an actuation question
+      return
+    raise
   lib.warnings()
   if not np.all(np.isfinite(np.array(d.qacc))):
     ck.discard('nonfinite')
